@@ -680,15 +680,15 @@ class Interp:
                         return [TOP]
                     return [TOP]
                 ci = next((k for k in self.qtypes if k.name == cls[0]), None)
-                if ci is not None and m in ci.methods and m in ("check", "parse"):
-                    res = self.call(ci.methods[m], args)
+                if ci is not None and self.prog.method(ci, m) is not None and m in ("check", "parse"):
+                    res = self.call(self.prog.method(ci, m), args)
                     ctx.res.raises |= res.raises
                     return list(res.returns) or []
                 return [TOP]
             # static call ClassName.method(...)
             if isinstance(f.value, ast.Name) and f.value.id in {k.name for k in self.qtypes} and m in ("check", "parse"):
                 ci = next(k for k in self.qtypes if k.name == f.value.id)
-                res = self.call(ci.methods[m], args)
+                res = self.call(self.prog.method(ci, m), args)
                 ctx.res.raises |= res.raises
                 return list(res.returns) or []
             return None
